@@ -2,6 +2,7 @@ package spine
 
 import (
 	"fmt"
+	"sync"
 
 	"github.com/enbility/spine-go/api"
 	"github.com/enbility/spine-go/model"
@@ -14,6 +15,8 @@ type Feature struct {
 	description *model.DescriptionType
 	role        model.RoleType
 	operations  map[model.FunctionType]api.OperationsInterface
+
+	muxOperations sync.RWMutex
 }
 
 var _ api.FeatureInterface = (*Feature)(nil)
@@ -41,7 +44,15 @@ func (r *Feature) Role() model.RoleType {
 }
 
 func (r *Feature) Operations() map[model.FunctionType]api.OperationsInterface {
-	return r.operations
+	r.muxOperations.RLock()
+	defer r.muxOperations.RUnlock()
+
+	res := make(map[model.FunctionType]api.OperationsInterface, len(r.operations))
+	for key, value := range r.operations {
+		res[key] = value
+	}
+
+	return res
 }
 
 func (r *Feature) Description() *model.DescriptionType {
